@@ -3567,6 +3567,17 @@ func (a *Association) handleForwardTSN(chunkTSN *chunkForwardTSN) []*packet {
 	//   its cumulative TSN point to the value carried in the FORWARD TSN
 	//   chunk,
 
+	// The skipped message may have been the first one on its stream: every stream
+	// named must exist before the skip is taken. If one cannot be created (accept
+	// backlog full) the chunk is dropped as a whole, like DATA for such a stream, and
+	// the peer repeats it; taking it would acknowledge the skip while the stream's
+	// new sequence number is lost and nothing on that stream is ever delivered.
+	for _, forwarded := range chunkTSN.streams {
+		if _, ok := a.streams[forwarded.identifier]; !ok && a.createStream(forwarded.identifier, true) == nil {
+			return nil
+		}
+	}
+
 	a.payloadQueue.advanceCumulativeTSN(chunkTSN.newCumulativeTSN)
 
 	// Report new peerLastTSN value and abandoned largest SSN value to
@@ -3616,6 +3627,13 @@ func (a *Association) handleIForwardTSN(chunkTSN *chunkIForwardTSN) []*packet {
 		a.awakeWriteLoop()
 
 		return nil
+	}
+
+	// See handleForwardTSN: every stream named must exist before the skip is taken.
+	for _, forwarded := range chunkTSN.streams {
+		if _, ok := a.streams[forwarded.identifier]; !ok && a.createStream(forwarded.identifier, true) == nil {
+			return nil
+		}
 	}
 
 	a.payloadQueue.advanceCumulativeTSN(chunkTSN.newCumulativeTSN)
